@@ -1480,7 +1480,7 @@ MG_PROVIDE_FORMS = ["atom", "contract/out", "ident-spec", "ident-spec-rename", "
 MG_REQUIRE_FORMS = ["plain", "for-syntax", "only-in", "only-in-rename", "prefix-in", "prefix-only", "only-prefix",
                     "prefix-only-rename"]
 MG_CONTEXTS = ["plain", "earlier-global", "later-global", "local-let", "local-lambda", "local-define", "also-lib",
-               "lib-first"]
+               "lib-first", "indirect-first"]
 MG_LAYOUTS = ["split", "same-unit"]
 
 
@@ -1686,6 +1686,11 @@ def mg_case(level, rf, context, layout, jit, rf2="plain", macro_provide="for-syn
              "template": m["template"], "src": mg_use(m, context), "expected": m["expected"],
              "spellings": m["spellings"]} for m in macros]
     pre = ["\n".join(userdefs)] if context == "earlier-global" else []
+    if context == "indirect-first":
+        # an earlier unit loads A only INDIRECTLY, through a module N that requires A without using any of A's
+        # macros (A's imports are mentioned by A's macro templates only); a later unit requires A and uses them
+        files["mgn.scm"] = '(require "mga.scm")\n(provide mgn-f)\n(define (mgn-f x) (list \'MGN x))\n'
+        pre = ['(require "@ROOT@/mgn.scm")\n(mgn-f 1)']
     post = ["\n".join(userdefs)] if context == "later-global" else []
     if layout == "split":
         units = pre + [req] + post + [u["src"] for u in uses]
@@ -1822,6 +1827,8 @@ MG_CORPUS = [  # the basic combinations, always run (also written to corpus/c13/
     (2, "plain", "plain", "split", True), (2, "plain", "local-let", "same-unit", True),
     (2, "plain", "local-lambda", "split", False), (2, "plain", "local-define", "split", True),
     (2, "plain", "also-lib", "split", True), (2, "plain", "later-global", "split", True),
+    (2, "plain", "indirect-first", "split", True), (3, "plain", "indirect-first", "split", False),
+    (2, "only-in", "indirect-first", "split", True),
     (2, "only-in", "earlier-global", "split", True), (2, "prefix-in", "earlier-global", "split", True),
     (2, "prefix-only", "plain", "split", True), (2, "only-in-rename", "plain", "split", True),
     (3, "plain", "earlier-global", "split", True), (3, "plain", "local-let", "same-unit", False),
